@@ -40,7 +40,7 @@ func (k *StoreKeyObj) Invoke(ex *Exec, m string, a []Val) Val {
 type CtxV struct {
 	ms       *MultiStore
 	height   *Term // BV64
-	time     *Term // Int nanos
+	time     *Term // BV64 nanos since Unix epoch
 	chainID  string
 	checkTx  bool
 	recheck  bool
@@ -447,7 +447,7 @@ func (ex *Exec) ctxArg(v Val) *CtxV {
 	}
 	if c.ms == nil {
 		// zero Context
-		c = &CtxV{ms: ex.env.root, height: ex.tf.BVu(0, 64), time: ex.tf.IntConst(zeroTimeNanos)}
+		c = &CtxV{ms: ex.env.root, height: ex.tf.BVu(0, 64), time: ex.tf.BVu(0, 64)}
 	}
 	return c
 }
@@ -473,11 +473,25 @@ func init() {
 	reg(rtPkg+"NewContext", func(ex *Exec, a []Val) Val {
 		// NewContext(height int64, unixNanos sdkmath.Int-free: time as int64 seconds, chainID string)
 		h := a[0].(*Term)
-		secs := ex.tf.BV2Int(a[1].(*Term), true)
+		secs := a[1].(*Term)
 		chain := ex.argStr(a[2], "chain id")
-		return &CtxV{ms: ex.env.root, height: h, time: ex.tf.IMul(secs, ex.tf.Inti(1000000000)), chainID: chain,
+		return &CtxV{ms: ex.env.root, height: h, time: ex.tf.BVMul(secs, ex.tf.BVu(1000000000, 64)), chainID: chain,
 			gas: &GasMeterObj{infinite: true, limit: ex.tf.BVu(0, 64), consumed: ex.tf.BVu(0, 64)}, events: &EventMgrObj{}}
 	})
+	reg(rtPkg+"NewContextAt", func(ex *Exec, a []Val) Val {
+		h := a[0].(*Term)
+		t := a[1].(TimeV)
+		if t.Z {
+			ex.unmodelled("context with zero block time")
+		}
+		chain := ex.argStr(a[2], "chain id")
+		return &CtxV{ms: ex.env.root, height: h, time: t.T, chainID: chain,
+			gas: &GasMeterObj{infinite: true, limit: ex.tf.BVu(0, 64), consumed: ex.tf.BVu(0, 64)}, events: &EventMgrObj{}}
+	})
+	reg("github.com/cosmos/cosmos-sdk/telemetry.ModuleMeasureSince", func(ex *Exec, a []Val) Val { return nil })
+	reg("github.com/cosmos/cosmos-sdk/telemetry.MeasureSince", func(ex *Exec, a []Val) Val { return nil })
+	reg("github.com/cosmos/cosmos-sdk/telemetry.IncrCounter", func(ex *Exec, a []Val) Val { return nil })
+	reg("github.com/cosmos/cosmos-sdk/telemetry.SetGauge", func(ex *Exec, a []Val) Val { return nil })
 	reg(C+"KVStore", func(ex *Exec, a []Val) Val {
 		c := ex.ctxArg(a[0])
 		kv, ok := a[1].(IfaceV)
